@@ -3,7 +3,10 @@ mod c01;
 mod c02;
 mod c03;
 mod c06;
+mod c07;
+mod c10;
 mod c12;
+mod c19;
 mod c15;
 mod c16;
 mod desc;
@@ -28,6 +31,9 @@ pub fn exec_line(line: &str) -> String {
             .or_else(|| c02::exec(&t))
             .or_else(|| c06::exec(&t))
             .or_else(|| c12::exec(&t))
+            .or_else(|| c07::exec(&t))
+            .or_else(|| c10::exec(&t))
+            .or_else(|| c19::exec(&t))
             .or_else(|| c17::exec(&t))
             .or_else(|| c13::exec(&t))
             .or_else(|| c03::exec(&t))
@@ -55,6 +61,12 @@ fn main() {
                 "C16" => c16::run(&mut o, tier, seed),
                 "C17" => c17::run(&mut o, tier, seed),
                 "C13" => c13::run(&mut o, tier, seed),
+                "C07" => c07::run_c07(&mut o, tier, seed),
+                "C08" => c07::run_c08(&mut o, tier, seed),
+                "C09" => c10::run_c09(&mut o, tier, seed),
+                "C10" => c10::run_c10(&mut o, tier, seed),
+                "C11" => c10::run_c11(&mut o, tier, seed),
+                "C19" => c19::run(&mut o, tier, seed),
                 "C12" => c12::run(&mut o, tier, seed),
                 "C06" => c06::run(&mut o, tier, seed),
                 "C14" => c14::run(&mut o, tier, seed),
